@@ -935,9 +935,11 @@ def forest_exhaustive(max_leaves=4, max_sups=3, step=1):
     counter = [0]
     for nl in range(1, max_leaves + 1):
         for ns in range(0, max_sups + 1):
-            for shape in _forest_shapes(nl, ns):
-                lnames = iter(['A', 'B', 'Cc', 'D9'])
-                snames = iter(['P', 'Q', 'R2'])
+            for si, shape in enumerate(_forest_shapes(nl, ns)):
+                # declaration order is not alphabetical order in three shapes out of four (a front end that sorts
+                # names somewhere — seeded change C18-e — is invisible on alphabetically declared hierarchies)
+                lnames = iter([['A', 'B', 'Cc', 'D9'], ['D9', 'Cc', 'B', 'A'], ['B', 'A', 'D9', 'Cc'], ['Cc', 'D9', 'A', 'B']][si % 4])
+                snames = iter([['P', 'Q', 'R2'], ['R2', 'Q', 'P'], ['Q', 'R2', 'P']][si % 3])
                 sups = []          # (name, leaves beneath)
                 def build(items, top):
                     res = []
